@@ -2,7 +2,7 @@
 from plib import *
 from props.vcommon import *
 
-LEAN_TARGETS = ["Plonk.Props.C03"]
+LEAN_TARGETS = ["Plonk.Props.C03", "Plonk.Props.WidgetTie"]
 ASSUMPTIONS = ["pairing decided in the trapdoor view (bilinearity/non-degeneracy assumed; x known because the SRS RNG is scripted)",
                "Keccak/STROBE sponge treated as a random oracle: different framed operation lists give unrelated challenges"]
 TRUSTED = ["dusk-bls12_381 / merlin (re-implemented in the Lean model and compared on every request)"]
